@@ -512,6 +512,30 @@ def main(run: Run, audit):
                 broken.append('batch boundary %d (%s): %s' % (c['k'], c['phase'], what))
     if len(seen) != len(codec) and not broken:
         broken.append('no Coq verdict for %d sampler-codec cases' % (len(codec) - len(seen)))
+    # control state across resumes: traced runs with resumes replayed through the control layer (Shell2Ctl): the
+    # thresholds and update counters of a resumed sampler must be those of the model's uninterrupted history
+    import shellfam
+    import trace as T
+    rng = np.random.default_rng(run.seed + 5)
+    n_ctl = 6 if run.tier == 'quick' else 24
+    cjobs = []
+    for i in range(n_ctl):
+        force = dict(resumes=3 + i % 3, toggles=i % 2, max_batches=200 if run.tier == 'quick' else 700, max_seconds=60 if run.tier == 'quick' else 240,
+                     family=['gauss', 'plateau', 'twomode', 'funnel', 'halfspace', 'periodic'][i % 6], direct_every=False)
+        cjobs.append((T.make_config(rng, i, run.tier, force), 'C05', dict(tmp=run.tmp)))
+    with Pool(min(16, n_ctl)) as pool:
+        cres_ctl = pool.map(shellfam.worker, cjobs, chunksize=1)
+    ctl_events = ctl_resumes = 0
+    for r in cres_ctl:
+        if 'crashed' in r:
+            fails.append((r['cfg'], 'harness exception in the traced control-layer run: ' + r['crashed'][-300:], -1))
+            continue
+        ctl_events += r['events']
+        ctl_resumes += r['stats']['resumes']
+        for w, d in r['fails'].get('C05', []) + r['fails'].get('ANY', []):
+            fails.append((r['cfg'], w, d.get('batch', -1)))
+        if not r['model_ok'] and not r.get('borderline'):
+            broken.append('control layer (thresholds, update counters, trigger) of a traced run with resumes differs from Shell2Ctl.cstep: %s' % (r['model_diff'][:1],))
     for o in outs:
         if o.get('keepdir'):
             shutil.rmtree(o['keepdir'], ignore_errors=True)
@@ -522,7 +546,7 @@ def main(run: Run, audit):
     run.cov.update(evaluations=sum(o['boundaries'] for o in outs) + n_cont, distinct_nontrivial=sum(o['compared'] for o in outs),
                    rule='every batch boundary of every configured run: fresh Sampler(resume=True) from a copy of the file, canonical deep comparison with the live object (exhaustive per run); '
                         'true continuations to the end from boundaries of every phase (quick) or all boundaries (thorough); the stepping run uses mixed run(n_like_max) strides',
-                   exhaustive=True, configurations=len(cfgs), boundaries=sum(o['boundaries'] for o in outs), boundary_phases=phases, continuations=n_cont, full_write_comparisons=sum(o.get('full_write_compared', 0) for o in outs), sampler_codec_model_checks=n_codec,
+                   exhaustive=True, configurations=len(cfgs), boundaries=sum(o['boundaries'] for o in outs), boundary_phases=phases, continuations=n_cont, full_write_comparisons=sum(o.get('full_write_compared', 0) for o in outs), sampler_codec_model_checks=n_codec, control_layer_events=ctl_events, control_layer_resumes=ctl_resumes,
                    direct_predicate_failures=len(fails),
                    samples=[dict(config={k: v for k, v in outs[0]['cfg'].items() if k != 'neural_network_kwargs'}, reference=outs[0].get('ref'), boundaries=outs[0]['boundaries'])])
     if fails:
@@ -533,7 +557,7 @@ def main(run: Run, audit):
                            broken=None if found else 'resume comparison (harness/c05.py canonical form)'), found, key='C05:' + what[:30])
     elif broken:
         run.violation('C05: correspondence of the sampler-file codec model with the implementation broken (no direct predicate fails): ' + broken[0],
-                      dict(kind='correspondence', broken='sampler.py write / write_shell_update ~ SamplerCodec.write_file / upd_file', what=broken[:5]), False)
+                      dict(kind='correspondence', broken='sampler.py write / write_shell_update ~ SamplerCodec.write_file / upd_file; run()/add_bound counters ~ Shell2Ctl.cstep', what=broken[:5]), False)
 
 
 def replay(path):
